@@ -20,7 +20,7 @@ class C08(common.SpecCheck):
                    "reference runtime is hash-seed independent (lists, ints, explicit sorted() only; self-tested)"]
 
     def gen(self, rng, k):
-        spec, meta = classes.gen_mixed(rng, [("S", 4), ("O", 4), ("A", 2), ("K", 3), ("T", 2)])
+        spec, meta = classes.gen_mixed(rng, [("S", 4), ("O", 4), ("A", 2), ("K", 3), ("T", 2), ("O2", 2)])
         return spec, meta
 
     def unit_args(self, spec, meta, inputs):
